@@ -53,16 +53,21 @@ def make_scripts(edges, seed, varied=True, pairs=False):
     pre-state (a shortest path over deterministic edges, chosen at random among
     the shortest ones per seed), then the edge itself (the only logged step)."""
     rnd = random.Random(seed)
-    parents = collections.defaultdict(list)   # post -> [(pre, event)]
+    # post -> [(pre, event, relational)]: relational (nd) edges are usable too - the
+    # model lists representative outcomes and the real call realises one of them;
+    # a script whose prefix ends somewhere else is still a real history (the
+    # logged step is validated from the world actually reached) and is counted
+    # as not realising its edge (see realised())
+    parents = collections.defaultdict(list)
     for ed in edges:
-        if not ed['nd'] and not ed['p']:
+        if not ed['p']:
             pre, post = canon(ed['pre']), canon(ed['post'])
             if pre != post:
-                parents[post].append((pre, ed['e']))
+                parents[post].append((pre, ed['e'], bool(ed['nd'])))
     # BFS levels from the empty world
     succ = collections.defaultdict(list)
     for post, lst in parents.items():
-        for pre, e in lst:
+        for pre, e, nd in lst:
             succ[pre].append(post)
     level = {'[]': 0}
     frontier = ['[]']
@@ -75,14 +80,17 @@ def make_scripts(edges, seed, varied=True, pairs=False):
                     nxt.append(t)
         frontier = nxt
     path_cache = {'[]': []}
+    path_nd = {'[]': False}        # does the chosen path use a relational edge?
 
     def path(state):
         if state in path_cache:
             return path_cache[state]
-        cands = [(pre, e) for pre, e in parents[state] if level.get(pre, 1 << 30) == level[state] - 1]
-        pre, e = rnd.choice(cands)
+        cands = [(pre, e, nd) for pre, e, nd in parents[state] if level.get(pre, 1 << 30) == level[state] - 1]
+        det = [c for c in cands if not c[2]]
+        pre, e, nd = rnd.choice(det or cands)
         p = path(pre) + [e]
         path_cache[state] = p
+        path_nd[state] = nd or path_nd[pre]
         return p
 
     # every deterministic, non-panicking edge by its post-state (self-loops = read-only calls included)
@@ -91,7 +99,7 @@ def make_scripts(edges, seed, varied=True, pairs=False):
         if not ed['nd'] and not ed['p']:
             incoming[canon(ed['post'])].append((canon(ed['pre']), ed['e']))
 
-    def wander(state, k):
+    def wander(state, k, start=None):
         """a random real history ending in `state`: k random steps backwards (any
         incoming edge, read-only calls and detours included), then a shortest
         path to where that walk started: hidden state left behind by earlier
@@ -105,6 +113,8 @@ def make_scripts(edges, seed, varied=True, pairs=False):
             p, e = rnd.choice(cands)
             steps.append(e)
             cur = p
+        if start is not None:
+            start.append(cur)
         return path(cur) + list(reversed(steps))
 
     scripts = []
@@ -119,6 +129,18 @@ def make_scripts(edges, seed, varied=True, pairs=False):
         if varied:
             steps = wander(pre, rnd.randint(2, 6)) + [ed['e']]
             scripts.append({'id': len(edges) + i, 'steps': steps, 'log_from': len(steps) - 1, 'pre': ed['pre']})
+            # the same kind of history, but the harness looks at the objects (AsArray,
+            # iterators, sizes: the projection) only after a random subset of the
+            # steps, and not right before the logged call: views taken at some moments
+            # and not at others are what exposes cached views.  The pre-world of the
+            # logged call is then the model's (all steps before it are deterministic)
+            st0 = []
+            steps = wander(pre, rnd.randint(2, 6), st0)
+            if steps and not path_nd.get(st0[0], True):
+                steps = [dict(e, nv=(rnd.random() < 0.6)) for e in steps]
+                steps[-1]['nv'] = True
+                scripts.append({'id': 3 * len(edges) + i, 'steps': steps + [ed['e']], 'log_from': len(steps),
+                                'pre': ed['pre'], 'blind': True})
     if pairs:
         # every pair of consecutive edges (e1 ; e2), both logged: what a call leaves
         # behind for the next one (flags, caches) is exercised for every combination.
@@ -126,7 +148,7 @@ def make_scripts(edges, seed, varied=True, pairs=False):
         by_pre = collections.defaultdict(list)
         for ed in edges:
             by_pre[canon(ed['pre'])].append(ed)
-        nid = 2 * len(edges)
+        nid = 4 * len(edges)
         for e1 in edges:
             pre = canon(e1['pre'])
             if e1['p'] or pre not in level:
@@ -166,10 +188,28 @@ def run_scripts(ctx, codec, scripts, tag):
     sf = ctx.path('scripts_%s_%s.ndjson' % (tag, codec))
     with open(sf, 'w') as f:
         for s in scripts:
-            f.write(json.dumps({'id': s['id'], 'steps': s['steps'], 'log_from': s['log_from']}) + '\n')
+            d = {'id': s['id'], 'steps': s['steps'], 'log_from': s['log_from']}
+            if s.get('blind'):
+                d['pre'] = s['pre']
+            f.write(json.dumps(d) + '\n')
     out = ctx.path('trace_%s_%s.ndjson' % (tag, codec))
     _run_harness(ctx, ['world-run', '-scripts', sf, '-codec', codec], out)
     return out
+
+
+def realised(trace_file, scripts):
+    """number of scripts whose unlogged prefix really ended in the pre-state of
+    their edge (relational steps in the prefix may end elsewhere)"""
+    byid = {s['id']: s for s in scripts}
+    n = 0
+    with open(trace_file) as f:
+        for l in f:
+            if l.startswith('{"t":"reset"'):
+                x = json.loads(l)
+                s = byid.get(x.get('sid'))
+                if s is not None and canon(x['w']) == canon(s['pre']):
+                    n += 1
+    return n
 
 
 def run_random(ctx, codec, family, n, steps, maxlen, tag):
@@ -257,6 +297,8 @@ def script_of(rej, scripts_by_id=None):
     x = rej['line']
     if scripts_by_id is not None and x['sid'] in scripts_by_id:
         s = scripts_by_id[x['sid']]
+        if s.get('blind'):
+            return {'id': 0, 'steps': s['steps'], 'log_from': s['log_from'], 'blind': True, 'pre': s['pre']}
         return {'id': 0, 'steps': s['steps'], 'log_from': 0}
     steps = [{'k': h['k'], 'm': h['m'], 'self': h['self'], 'args': h['args'], 'ec': h.get('ec', '')}
              for h in rej['history'] if h['t'] == 'call']
